@@ -4,6 +4,8 @@ impl Bvd {
     pub open spec fn cap(&self) -> int { (self.data@.len() * 64) as int }
     /// A-size: the storage is smaller than usize::MAX/2 bits.
     pub open spec fn size_ok(&self) -> bool { self.data@.len() * 64 <= usize::MAX / 2 }
+    /// growing to `l` bits is within A-size: either it fits already or the fresh allocation is small enough
+    pub open spec fn grow_ok(&self, l: int) -> bool { l <= self.data@.len() * 64 || len_ok(l) }
     pub open spec fn wf(&self) -> bool {
         &&& self.size_ok()
         &&& self.length <= self.data@.len() * 64
